@@ -19,7 +19,7 @@ LEVEL = "exploration"
 MANIFEST = {
     "technique": "bounded-exhaustive enumeration of every integer translation and every on-grid tower cell per configuration; np.roll / Fourier-shift oracle",
     "text": "All nx*ny translations of the source (with wrap-around), all nx*ny tower cells, the complete point-reflection table and every non-zero on-grid measurement point for the re-centring rule are enumerated for each configuration of a lattice of profile sets, non-square grids with dx != dy (even and odd sizes) and mode counts.",
-    "note": "halo=0 so the whole periodic domain is observed. Tolerance 1e-9 of field maximum. Odd sizes use clamped mode counts (the only accepted combination) and test the half-cell re-centring.",
+    "note": "halo=0 observes the whole periodic domain; the tower-shift and point-reflection claims are additionally checked with zero-flux halos (default, incommensurate, half-commensurate) on the cropped output, for every tower cell and every source cell whose mirror image lies inside the domain. Tolerance 1e-9 of field maximum. Odd sizes use clamped mode counts (the only accepted combination) and test the half-cell re-centring.",
 }
 
 
@@ -27,6 +27,7 @@ def configs(tier):
     profs = ("const", "most_aniso") if tier == "quick" else sl.PROFILE_SETS
     grids = [sl.GRIDS[0]] if tier == "quick" else list(sl.GRIDS)
     modes = ("full", [4, 4]) if tier == "quick" else ("full", [4, 4], [6, 4], [64, 64])
+    grids = list(sl.GRIDS)
     for p, g, m in itertools.product(profs, grids, modes):
         yield {"prof": p, "grid": g[0], "dom": g[1], "modes": m}
     odd = [((7, 5), (70.0, 75.0))] if tier == "quick" else [((7, 5), (70.0, 75.0)), ((5, 7), (75.0, 70.0)), ((7, 6), (70.0, 90.0))]
@@ -95,6 +96,69 @@ def case_translate(case):
     return {"v": v[:8], "nt": True, "n": cnt[0], "obs": {"worst_rel_err": worst[0], "shifts": len(cells)}}
 
 
+def halo_configs(tier):
+    profs = ("const", "most_aniso") if tier == "quick" else sl.PROFILE_SETS
+    grids = [sl.GRIDS[0], sl.ODD_GRIDS[0]] if tier == "quick" else list(sl.GRIDS) + list(sl.ODD_GRIDS)
+    halos = (None, 13.0, 20.0) if tier == "quick" else (None, 13.0, 20.0, 30.0, 45.0, 7.0)
+    for p, g, h in itertools.product(profs, grids, halos):
+        odd = g[0][0] % 2 or g[0][1] % 2
+        for m in (([64, 64],) if odd else ("full", [4, 4])):
+            yield {"prof": p, "grid": g[0], "dom": g[1], "halo": h, "modes": m}
+
+
+def case_halo(case):
+    """with a zero-flux halo (cropped output): the footprint of EVERY on-grid tower cell m, evaluated at every
+    source cell s, equals the response at m to a unit source at s displaced ... i.e. footprint_m[s] == D_m[2m - s]
+    wherever 2m - s lies inside the returned domain, and == D_(m+t)[..] translated for whole-cell tower moves
+    wherever both cells are inside."""
+    S0 = sl.solver()
+    nx, ny = case["grid"]
+    dom = tuple(case["dom"])
+    dx, dy = dom[0] / nx, dom[1] / ny
+    z, prof = sl.build_profiles(case["prof"], 4)
+    levels = [2, 4]
+    modes = sl.resolve_modes(case["modes"], nx, ny, dom, case["halo"])
+    kw = dict(modes=modes, halo=case["halo"], precision="double")
+    tol = 1e-9
+    cnt = [0]
+
+    def S(q, **k):
+        cnt[0] += 1
+        _, c, f = S0(q, z, prof, dom, levels, **kw, **k)
+        return np.stack([np.asarray(c, dtype=float), np.asarray(f, dtype=float)])
+
+    v = []
+    worst = 0.0
+    cells = list(itertools.product(range(ny), range(nx)))
+    q0 = np.zeros((ny, nx))
+    FP = {m: S(q0, meas_pt=(m[1] * dx, m[0] * dy), footprint=True) for m in cells}
+    scale = max(np.abs(FP[cells[0]]).max(), 1e-300)
+    for (mj, mi) in cells:
+        Dm = S(sl.impulse(ny, nx, mj, mi))
+        fpm = FP[(mj, mi)]
+        # point reflection about m, restricted to cells whose mirror image lies inside the returned domain
+        for (sj, si) in cells:
+            rj, ri = 2 * mj - sj, 2 * mi - si
+            if 0 <= rj < ny and 0 <= ri < nx:
+                e = np.abs(fpm[:, :, sj, si] - Dm[:, :, rj, ri]).max() / scale
+                worst = max(worst, e)
+                if not e <= tol:
+                    v.append({"sub": "point-reflection-halo", "sig": "point-reflection-halo", "msg": "halo=%r: footprint of tower cell (%d,%d) at source cell (%d,%d) is %.6g, the unit response there mirrored about the tower gives %.6g (dev %.2e of max); config %s"
+                              % (case["halo"], mj, mi, sj, si, fpm[1, 0, sj, si], Dm[1, 0, rj, ri], e, core.canon(case))})
+                    break
+        # whole-cell tower move: footprint_(m+t)[s+t] == footprint_m[s] wherever both are inside
+        for (tj, ti) in ((0, 1), (1, 0), (1, 2)):
+            m2 = (mj + tj, mi + ti)
+            if m2 in FP:
+                a = FP[m2][:, :, tj:, ti:]
+                b = fpm[:, :, : ny - tj, : nx - ti]
+                e = np.abs(a - b).max() / scale
+                worst = max(worst, e)
+                if not e <= tol:
+                    v.append({"sub": "tower-shift-halo", "sig": "tower-shift-halo", "msg": "halo=%r: moving the tower from cell (%d,%d) by (%d,%d) cells does not translate the footprint (dev %.2e); config %s" % (case["halo"], mj, mi, tj, ti, e, core.canon(case))})
+    return {"v": v[:6], "nt": True, "n": cnt[0], "obs": {"worst_rel_err": worst, "towers": len(cells)}}
+
+
 def run(ctx):
     os.environ["VERIF_SEED"] = str(ctx.seed)
     core.warm_numba()
@@ -103,3 +167,4 @@ def run(ctx):
         "4 identities each (source shift, tower shift, point reflection, re-centring); configurations are distinct lattice points; evaluations counts solver executions"
     )
     ctx.run_cases(case_translate, configs(ctx.tier), sub="translation", chunksize=1)
+    ctx.run_cases(case_halo, halo_configs(ctx.tier), sub="halo-cropped", chunksize=1)
